@@ -353,35 +353,41 @@ Definition find_occurrences (dic : list (Z * mcell)) : res (list (Z * list Z)) :
   let roots := map fst (filter (fun kv => Z.eqb (cuniv (snd kv)) 0) dic) in
   occ_loop (S (length dic)) dic (rev roots) roots [].
 
-(* inline_cells_worker; fuel bounds the Python recursion depth *)
+(* inline_cells_worker; fuel bounds the Python recursion depth.  [rec] is the
+   recursive call: one argument of a node is either kept (surface, CellRef that
+   is not inlined), replaced by the rewritten geometry of the cell it refers to,
+   or rewritten recursively *)
+Definition inline_arg (rec : geom -> res geom) (dic : list (Z * mcell)) (ti : list Z) (a : geom)
+  : res geom :=
+  match a with
+  | GRef c =>
+      if memZ c ti then
+        match lookup c dic with
+        | None => Err EKey
+        | Some sub => rec (cgeom sub)
+        end
+      else Ok a
+  | GSurf _ => Ok a
+  | GNode _ _ => rec a
+  end.
+
+Fixpoint map_res {A B : Type} (f : A -> res B) (l : list A) : res (list B) :=
+  match l with
+  | [] => Ok []
+  | a :: r =>
+      match f a with
+      | Err e => Err e
+      | Ok b => match map_res f r with Err e => Err e | Ok r' => Ok (b :: r') end
+      end
+  end.
+
 Fixpoint inline_worker (fuel : nat) (dic : list (Z * mcell)) (ti : list Z) (g : geom) : res geom :=
   match fuel with
   | O => Err EFuel
   | S f =>
       match g with
       | GNode op args =>
-          match
-            (fix go (l : list geom) : res (list geom) :=
-               match l with
-               | [] => Ok []
-               | a :: r =>
-                   let ra := match a with
-                             | GRef c =>
-                                 if memZ c ti then
-                                   match lookup c dic with
-                                   | None => Err EKey
-                                   | Some sub => inline_worker f dic ti (cgeom sub)
-                                   end
-                                 else Ok a
-                             | GSurf _ => Ok a
-                             | GNode _ _ => inline_worker f dic ti a
-                             end in
-                   match ra with
-                   | Err e => Err e
-                   | Ok a' => match go r with Err e => Err e | Ok r' => Ok (a' :: r') end
-                   end
-               end) args
-          with
+          match map_res (inline_arg (inline_worker f dic ti) dic ti) args with
           | Err e => Err e
           | Ok args' => Ok (GNode op args')
           end
